@@ -18,3 +18,52 @@ Example C08_nonvacuous :
   let '(r2, d2) := handle 1 false (mkHeader true 0 8 false zero_mask 2) [3; 237] TEOF [] [] d in
   r2 = HProto AppLevel /\ c08_reply_monitor 1 8 [3; 237] (dest_log d2) r2 = true.
 Proof. vm_compute. repeat split; reflexivity. Qed.
+
+(* ------------------------------------------------------------------------------------
+   [ctl_writes] (the fold of ControlWriter.Write over a list of writes, with the caller's
+   observation of each) is defined in proofs/ControlWriterProofs.v. *)
+Require Import CipherProofs WriterInv WriterFrameProofs WriterHistProofs ControlWriterProofs HandlerProofs.
+
+(* a control write that would exceed the limit is refused and changes nothing *)
+Theorem C08_control_write_overflow : forall p c, c_limit c < c_n c + len p ->
+  control_write p c = (inr (0, Some WOverflow), c).
+Proof. exact control_write_overflow. Qed.
+Print Assumptions C08_control_write_overflow.
+
+(* NewControlWriter: for EVERY sequence of writes, then Flush: no panic, and the destination
+   received nothing or ONE final frame of at most 125 payload bytes with the right opcode,
+   masked iff client, carrying exactly the accepted writes *)
+Theorem C08_control_writer : forall state op masks ps c0,
+  new_control_writer (mkDest [] None) state op masks = inr c0 ->
+  op < 16 -> Forall wf_key masks -> Forall wf_bytes ps ->
+  let '(ws, c1) := ctl_writes ps c0 in
+  let '(r, c2) := control_flush c1 in
+  Forall (fun w => o_panic (snd w) = None) ws /\ r = inr None /\
+  c08_ctl_monitor (client_side state) op ws (dest_log (w_dest (c_w c2))) = true.
+Proof. exact control_writer_monitor. Qed.
+Print Assumptions C08_control_writer.
+
+(* NewControlWriterBuffer: the same for every buffer length for which it does not panic *)
+Theorem C08_control_writer_buffer : forall state op buflen masks ps c0,
+  new_control_writer_buffer (mkDest [] None) state op buflen masks = inr c0 ->
+  op < 16 -> Forall wf_key masks -> Forall wf_bytes ps ->
+  let '(ws, c1) := ctl_writes ps c0 in
+  let '(r, c2) := control_flush c1 in
+  Forall (fun w => o_panic (snd w) = None) ws /\ r = inr None /\
+  c08_ctl_monitor (client_side state) op ws (dest_log (w_dest (c_w c2))) = true.
+Proof. exact control_writer_buffer_monitor. Qed.
+Print Assumptions C08_control_writer_buffer.
+
+(* the automatic replies: for both sides, ping / pong / close, EVERY payload of at most
+   125 bytes (masked on the wire or not), every io.Copy chunking and mask oracle, with the
+   whole payload available: the reply monitor holds (one valid final frame <= 125, masked
+   iff client, pong echoing the ping, close echoing an acceptable status code, 1002 for an
+   unacceptable close payload, nothing for a pong; and the right result for the caller) *)
+Theorem C08_replies : forall state op payload h unmask copy_sizes masks,
+  (state = 1 \/ state = 2) -> (op = 8 \/ op = 9 \/ op = 10) -> wf_bytes payload -> len payload <= 125 ->
+  h_op h = op -> h_len h = Z.of_N (len payload) -> (unmask = true -> wf_key (h_mask h)) -> Forall wf_key masks ->
+  let avail := if unmask then mask_spec payload (h_mask h) 0 else payload in
+  let '(res, d') := handle state unmask h avail TEOF copy_sizes masks (mkDest [] None) in
+  c08_reply_monitor state op payload (dest_log d') res = true.
+Proof. exact handle_reply_ok. Qed.
+Print Assumptions C08_replies.
